@@ -127,6 +127,27 @@ def snapshot(o, depth=0):
         return ['error', repr(e)]
 
 
+def culprit0(signal, obj):
+    """do the culprits begin with the rejected object?  (None: this exception class carries no culprits;
+    objects that cannot be weakly referenced are reported by their repr)"""
+    cs = getattr(signal, 'culprits', None)
+    if cs is None:
+        return None
+    if not cs:
+        return False
+    if cs[0] is obj:
+        return True
+    try:
+        if not isinstance(cs[0], str):
+            return False
+        full = repr(obj)
+        got = cs[0].strip('"')
+        # long representations are truncated in the middle with "..."
+        return got == full or ('...' in got and full.startswith(got.split('...')[0]))
+    except Exception:  # noqa
+        return False
+
+
 def run_one(hint, hint_py, value, draw, is_random, entry, strategy='O1', extra=None, details=False):
     spy = U.Spy()
     labels = []
@@ -150,6 +171,17 @@ def run_one(hint, hint_py, value, draw, is_random, entry, strategy='O1', extra=N
             elif entry == 'typehint_die':
                 TypeHint(hint_py).die_if_unbearable(obj, conf=conf)
                 v = True
+            elif entry == 'cause':
+                # the explanation path on its own, whatever the generated code would have said
+                from beartype._check.error.errmain import get_hint_object_violation
+                from beartype._check.convert.convmain import BEARTYPE_CALL_EXTERNAL_META
+                from beartype.roar._roarexc import _BeartypeCallHintPepRaiseDesynchronizationException as Desync
+                try:
+                    exc = get_hint_object_violation(call_curr=BEARTYPE_CALL_EXTERNAL_META, conf=conf, hint=hint_py,
+                                                    obj=obj, random_int=draw, exception_prefix='')
+                    v = not (type(exc) is conf.violation_door_type)     # found a cause => "F"
+                except Desync:
+                    v = True                                              # no cause => "T"
             elif entry == 'param':
                 def f(x):
                     ran.append(1)
@@ -171,15 +203,21 @@ def run_one(hint, hint_py, value, draw, is_random, entry, strategy='O1', extra=N
     if signal is not None:
         verdict = 'F' if (expected is not None and type(signal) is expected) else 'exc:' + type(signal).__name__
         if details:
+            import re as _re
+            plain = _re.sub(r'\x1b\[[0-9;]*m', '', str(signal))
             info = {'kind': 'raise', 'cls': type(signal).__name__, 'message': str(signal)[:1500],
-                    'culprit0': bool(getattr(signal, 'culprits', None)) and signal.culprits[0] is obj,
+                    'names_hint': repr(hint_py) in plain,
+                    'culprit0': culprit0(signal, obj),
                     'ran': len(ran)}
     else:
         mine = [w for w in wlist if expected is not None and issubclass(expected, Warning) and w.category is expected]
         if mine:
             verdict = 'F' if v else 'exc:warned_and_failed'
             if details:
+                import re as _re
+                plain = _re.sub(r'\x1b\[[0-9;]*m', '', str(mine[0].message))
                 info = {'kind': 'warn', 'cls': mine[0].category.__name__, 'message': str(mine[0].message)[:1500],
+                        'names_hint': repr(hint_py) in plain,
                         'culprit0': None, 'ran': len(ran), 'count': len(mine)}
         else:
             verdict = 'T' if v else 'F'
